@@ -34,7 +34,8 @@ VerdictConv(r) == LET i == PUnits[r.i]  j == PUnits[r.j]  x == FromWire(r.x)
                       \* smaller of the reps involved, "the intermediate displacement is representable in the reps used"
                       small == Le(Add(BAbs(Mul(x, a)), BAbs(b)), MaxOf(IF Signed(calc) THEN calc ELSE "i32")) /\ Le(c, MaxOf("i32"))
                       claimed == qr[2] = Zero /\ InRange(r.R2, qr[1]) /\ small IN
-  [ok |-> claimed => (FromWire(r.res) = qr[1] /\ r.ub = 0), exact |-> qr[2] = Zero, cmp |-> (r.cexact = 1) = (qr[2] = Zero)]
+  \* forms: coerce_in<R>(u), coerce_as<R>(u), in<R>(u), as<R>(u) and (same rep) the unit-only coerce_in(u), coerce_as(u) all agree
+  [ok |-> r.forms = 1 /\ (claimed => (FromWire(r.res) = qr[1] /\ r.ub = 0)), exact |-> qr[2] = Zero, cmp |-> (r.cexact = 1) = (qr[2] = Zero)]
 (* mixed: {i, j, x, y, lt..ne, dval (wire), dmag (pack of the difference's unit), sumq (p1 + (y in U_j as quantity)) position check} *)
 VerdictMixedPt(r) ==
   LET i == PUnits[r.i]  j == PUnits[r.j]  x == FromWire(r.x)  y == FromWire(r.y)
